@@ -320,6 +320,7 @@ type Unit struct {
 	curTag        string   // tag given to assumptions being added (loop invariant labels)
 	curWithout    []string // exclusions for obligations being generated
 	paramVals     map[string]Val
+	rangeCells    map[*ssa.Range]*ghostCell
 	err           error
 }
 
